@@ -277,6 +277,62 @@ def run (v : Variant) (caps : Caps) (s : St) : List Act → St
     | some s' => run v caps s' as
     | none => run v caps s as
 
+/-! ## A variant that waits for the client after the normal close
+
+`stepWaiting` differs from `step Variant.fixed` in one place: having written the normal close and
+closed `leaving`, the write loop does not return but waits until the reader goroutine has ended
+("to finish the closing handshake").  The state "`leaving` closed, write loop not yet left" does not
+occur in the code as it is (there `leaving` is closed on the way out), so it needs no new field.
+Used for a negative result only. -/
+def stepWaiting (caps : Caps) (s : St) (a : Act) : Option St :=
+  match a with
+  | .wOut =>
+    if s.panic.isNone && !s.wdone && s.outq.isEmpty && s.outClosed then
+      if s.leaving then
+        -- `<-readerDone`
+        if s.rpc = .done then some { s with wsClosed := true, wdone := true } else none
+      else some { s with s2c := s.s2c ++ [.closeNormal], leaving := true }
+    else step .fixed caps s .wOut
+  | a => step .fixed caps s a
+
+def runWaiting (caps : Caps) (s : St) : List Act → St
+  | [] => s
+  | a :: as =>
+    match stepWaiting caps s a with
+    | some s' => runWaiting caps s' as
+    | none => runWaiting caps s as
+
+/-! ## Several streaming connections on one server
+
+Every connection has its own socket, reader, write loop, adapter, channels and forwarders
+(everything `ServeHTTP` and `ProcessClientStreamRequest` create is local to the call); the
+connections share the process: a panic in any goroutine ends all of them. -/
+structure Srv where
+  conns : List St
+  deriving Repr
+
+def Srv.panicked (y : Srv) : Bool := y.conns.any (fun s => s.panic.isSome)
+
+/-- connection `i` performs action `a` -/
+def srvStep (v : Variant) (caps : Caps) (y : Srv) (i : Nat) (a : Act) : Option Srv :=
+  if y.panicked then none else
+  match y.conns[i]? with
+  | none => none
+  | some s =>
+    match step v caps s a with
+    | none => none
+    | some s' => some { conns := y.conns.set i s' }
+
+def srvRun (v : Variant) (caps : Caps) (y : Srv) : List (Nat × Act) → Srv
+  | [] => y
+  | (i, a) :: rest =>
+    match srvStep v caps y i a with
+    | some y' => srvRun v caps y' rest
+    | none => srvRun v caps y rest
+
+/-- the actions of connection `i` in a schedule of the whole server -/
+def proj (i : Nat) (sched : List (Nat × Act)) : List Act := (sched.filter (fun p => p.1 == i)).map (·.2)
+
 /-! ## Line-protocol driver
 
 The harness drives the client and the service of one or more streaming connections step by step
